@@ -236,3 +236,184 @@ Proof.
   - intros ci IN. change (tr s') with ([EEnd u] ++ tr s). apply kq_ext. apply in_app_or in IN as [IN|IN]; [|apply Kqr; right; exact IN].
     exfalso. eapply runm_notin; [|exact IN]. rewrite runm_app, runm_drops, T4. reflexivity.
 Qed.
+
+(* ------------------------------------------------------------------ *)
+(** * Termination *)
+
+Lemma state_drops_K a sa s l s' : state_drops a sa s = (l, s') ->
+  s' = s /\ existsb is_endb l = false /\ existsb is_runm l = false /\ (forall x, In x l -> x = MValDrop a \/ dly x = false).
+Proof.
+  unfold state_drops. destruct sa as [held|sh slab nx|]; intros Q; inversion Q; subst; (split; [reflexivity|]).
+  - split; [apply endb_dropitems | split; [apply runm_dropitems|]]. intros x IN. right. exact (nodly_in _ _ (dly_dropitems _) IN).
+  - split; [simpl; rewrite endb_app, endb_drops, endb_slab_drops; reflexivity|].
+    split; [simpl; rewrite runm_app, runm_drops, runm_slab_drops; reflexivity|].
+    intros x [<-|IN]; [left; reflexivity | right]. apply (nodly_in (drops sh ++ slab_drops slab)); [|exact IN].
+    rewrite dly_app, dly_drops, dly_slab_drops. reflexivity.
+  - split; [reflexivity | split; [reflexivity|]]. intros x [].
+Qed.
+
+Lemma pok_valdrop m s x a : x = MValDrop a \/ dly x = false -> pok m s x.
+Proof. intros [->|H]; [exact I | apply pok_nodly; exact H]. Qed.
+
+Lemma IK_terminate m b a c k0 s pre s' :
+  KS s -> handle (MTerminate a c) s = (pre, s') ->
+  monr stepK iK (tr s) = Some m -> monr stepF None (tr s) = Some b -> RK m b (MTerminate a c :: k0) s ->
+  RKnext (pre ++ k0) s'.
+Proof.
+  intros KS_ H MK MF R. pose proof R as [Kb Kf Ky Kp Kz Kcx Kql Kqr].
+  cbn [handle] in H. unfold terminate in H. destruct (aget (actors s) a) as [x|] eqn:A.
+  - set (x1 := mkActor SZombie (oz (count_set_state (a_strong x) STATE_ZOMBIE)) (a_rc x) None (a_logid x) (a_freed x)) in *.
+    set (s0 := if a_freed x then emit s (EModel M_UAF a) else s) in *.
+    destruct (state_drops a (a_state x) (upd_actor s0 a x1)) as [dl s1] eqn:SD.
+    destruct (state_drops_K _ _ _ _ _ SD) as (-> & DE & DR & DV).
+    set (s2 := upd_actor s0 a x1) in *.
+    assert (EV : exists evs, tr s2 = evs ++ tr s /\ forallb pbK evs = true).
+    { unfold s2, s0. destruct (a_freed x); [exists [EModel M_UAF a] | exists []]; split; reflexivity. }
+    destruct EV as (evs & TR & PB).
+    assert (A0 : aget (actors s0) a = Some x) by (unfold s0; destruct (a_freed x); exact A).
+    assert (NM : nmono s s2).
+    { intros b0 y HY. unfold s2. rewrite aget_upd. destruct (N.eqb a b0) eqn:Q.
+      - exists x1. split; [reflexivity | right; reflexivity].
+      - exists y. split; [|left; reflexivity]. unfold s0. destruct (a_freed x); exact HY. }
+    assert (DS : dies s2 = dies s) by (unfold s2, s0; destruct (a_freed x); reflexivity).
+    assert (KL : kl s2 = kl s) by (unfold s2, s0; destruct (a_freed x); reflexivity).
+    assert (A2 : aget (actors s2) a = Some x1) by (unfold s2; rewrite aget_upd, N.eqb_refl; reflexivity).
+    destruct (RK_frame m m b _ k0 s s2 evs TR NM (fun a c H => H) eq_refl R) as (P1 & P2 & P3 & P4 & P5 & P6).
+    assert (GEN : forall tl, pre = dl ++ tl -> s' = s2 -> existsb is_endb tl = false -> existsb is_runm tl = false ->
+                  (forall y, In y tl -> pok m s2 y) -> (forall y, In y tl -> tgt y = None) -> RKnext (pre ++ k0) s').
+    { intros tl -> -> TE TRn TP TT. right. exists m, b. split; [rewrite TR; apply monK_block; auto|]. split; [rewrite TR; apply monF_block; auto|].
+      assert (EP : existsb is_endb (dl ++ tl) = false) by (rewrite endb_app, DE, TE; reflexivity).
+      assert (EB' : endb ((dl ++ tl) ++ k0) = endb (MTerminate a c :: k0)) by (rewrite (endb_pre _ _ EP); reflexivity).
+      constructor.
+      - unfold openbody. rewrite EB'. unfold lastdie. rewrite DS. exact Kb.
+      - unfold fbody. rewrite EB'. exact Kf.
+      - intros a0 c0 EX. destruct (N.eqb a0 a) eqn:Q.
+        + apply N.eqb_eq in Q. subst a0. exists x1. split; [exact A2 | left; reflexivity].
+        + assert (NT : MTerminate a c <> MTerminate a0 c0) by (intros E; inversion E; subst; rewrite N.eqb_refl in Q; discriminate).
+          destruct (P4 _ _ EX NT) as (y & AY & G). exists y. split; [exact AY|]. destruct G as [G|G]; [left; exact G | right; apply in_or_app; right; exact G].
+      - intros y IN. apply in_app_or in IN as [IN|IN]; [|apply P1; exact IN]. apply in_app_or in IN as [IN|IN]; [|apply TP; exact IN].
+        apply (pok_valdrop m s2 y a). apply DV. exact IN.
+      - intros y a0 IN T. unfold fbody. rewrite EB'. fold (fbody (MTerminate a c :: k0)).
+        apply in_app_or in IN as [IN|IN]; [|apply (P5 y a0 IN T)]. apply in_app_or in IN as [IN|IN]; [|rewrite (TT y IN) in T; discriminate].
+        destruct (DV y IN) as [->|DY]; [|apply tgt_dly in T; congruence]. inversion T; subst a0. apply (Kz (MTerminate a c) a); [left; reflexivity | reflexivity].
+      - intros a0 p0 d0 IN. rewrite DS in IN. apply (P6 a0 p0 d0). exact IN.
+      - intros ci IN. rewrite KL in IN. apply P3. exact IN.
+      - intros ci IN. apply in_app_or in IN as [IN|IN]; [|apply P2; exact IN]. exfalso. eapply runm_notin; [|exact IN].
+        rewrite runm_app, DR, TRn. reflexivity. }
+    destruct (a_notify x) as [nt|] eqn:NT; inversion H; subst pre s'; clear H.
+    + apply (GEN [MLogClose a c; MRetInvoke nt (Some (MCause c))]); auto.
+      * intros y [<-|[<-|[]]]; [exact I|]. simpl. intros a' NS.
+        destruct (ks_act _ KS_ _ _ A) as (_ & _ & SH & _). pose proof (SH _ NT) as NS0. rewrite <- (nshape_fun _ _ _ NS0 NS).
+        destruct (Kp (MTerminate a c) (or_introl eq_refl)) as [CK|(y & AY & GY)]; [exact CK|]. rewrite A in AY. inversion AY; subst y. congruence.
+      * intros y [<-|[<-|[]]]; reflexivity.
+    + apply (GEN []); auto; try (symmetry; apply app_nil_r); intros y [].
+  - inversion H; subst pre s'; clear H. set (s' := emit s (EModel M_UAF a)).
+    destruct (RK_frame m m b _ k0 s s' [EModel M_UAF a] eq_refl (nmono_same _ _ eq_refl) (fun a c H => H) eq_refl R) as (P1 & P2 & P3 & P4 & P5 & P6).
+    right. exists m, b. split; [change (tr s') with ([EModel M_UAF a] ++ tr s); apply monK_block; auto|].
+    split; [change (tr s') with ([EModel M_UAF a] ++ tr s); apply monF_block; auto|].
+    constructor.
+    + exact Kb.
+    + exact Kf.
+    + intros a0 c0 EX. destruct (N.eqb a0 a) eqn:Q.
+      * apply N.eqb_eq in Q. subst a0. destruct (Ky _ _ EX) as (y & AY & _). rewrite A in AY. discriminate.
+      * assert (NT : MTerminate a c <> MTerminate a0 c0) by (intros E; inversion E; subst; rewrite N.eqb_refl in Q; discriminate).
+        destruct (P4 _ _ EX NT) as (y & AY & G). exists y. split; [exact AY | exact G].
+    + exact P1.
+    + intros y a0 IN T. apply (P5 y a0 IN T).
+    + intros a0 p0 d0 IN. apply (P6 a0 p0 d0). exact IN.
+    + exact P3.
+    + exact P2.
+Qed.
+
+(* ------------------------------------------------------------------ *)
+(** * A Ret is invoked: the notification *)
+
+Lemma actors_submit s q c : actors (submit s q c) = actors s.
+Proof. unfold submit. destruct q; reflexivity. Qed.
+
+Definition notify_step (r : ret) (m0 : option msg) (s : st) (pre : list mop) (s' : st) : Prop :=
+  exists rid a inner evs, r = Ret rid (RKNotify a inner) /\ pre = [] /\
+    tr s' = evs ++ ENotify a (msg_cause m0) :: tr s /\ forallb pbK evs = true /\ actors s' = actors s /\ dies s' = dies s.
+
+Definition slab_step (r : ret) (m0 : option msg) (s : st) (pre : list mop) (s' : st) : Prop :=
+  exists rid p key inner mm, r = Ret rid (RKSlab p key inner) /\ m0 = Some mm /\ pre = [MRetInvoke inner m0; MDropRef p] /\
+    evs_in pbK s s' /\ nmono s s' /\ dies s' = dies s.
+
+Lemma ret_invoke_K r m0 s pre s' : ret_invoke r m0 s = (pre, s') ->
+  neutralK s pre s' \/ notify_step r m0 s pre s' \/ slab_step r m0 s pre s'.
+Proof.
+  unfold ret_invoke. destruct r as [rid k]. destruct k as [caps body|a ci|a ci|a inner|p key inner].
+  - intros Q; inj_pairK Q. left. unfold neutralK. split; [eiK | split; [apply nmono_same; reflexivity | split; [reflexivity | split; [reflexivity|]]]].
+    right; left. exists XNone. split; [exact I | reflexivity].
+  - intros Q; inj_pairK Q. left. unfold neutralK. split; [eiK | split; [apply nmono_same; rewrite actors_submit; reflexivity | split; [reflexivity | split; [reflexivity|]]]].
+    left. dies_rw. reflexivity.
+  - destruct m0 as [mm|]; intros Q; inj_pairK Q; left; unfold neutralK.
+    + split; [eiK | split; [apply nmono_same; rewrite actors_submit; reflexivity | split; [reflexivity | split; [reflexivity|]]]]. left. dies_rw. reflexivity.
+    + split; [eiK | split; [apply nmono_same; reflexivity | split; [reflexivity | split; [reflexivity|]]]]. left. reflexivity.
+  - destruct inner as [[p ci]|]; intros Q; inj_pairK Q; right; left.
+    + exists rid, a, (Some (p, ci)), [ESub QMain (ci_uid (as_call p ci None)) (ci_call (as_call p ci None))].
+      repeat split; try reflexivity.
+    + exists rid, a, None, []. repeat split; reflexivity.
+  - destruct m0 as [mm|]; intros Q; inj_pairK Q.
+    + right; right. exists rid, p, key, inner, mm. repeat split; try reflexivity; [eiK | apply amono_nmono; am_tac | dies_rw; reflexivity].
+    + left. unfold neutralK. split; [eiK | split; [apply nmono_refl | split; [reflexivity | split; [reflexivity | left; reflexivity]]]].
+Qed.
+
+Lemma cok_guard m a c : cok m a c ->
+  match c with
+  | CDrop => match nget (k_expect m) a with Some _ => false | None => true end
+  | cc => has_req (k_reqs m) a cc && match nget (k_expect m) a with Some c0 => cause_eqb cc c0 | None => true end
+  end = true.
+Proof.
+  unfold cok. destruct c; try (intros [H [G|G]]; rewrite H, G; simpl; auto; try apply N.eqb_refl).
+  intros ->. reflexivity.
+Qed.
+
+Lemma IK_retinvoke m b r m0 k0 s pre s' :
+  FK (MRetInvoke r m0 :: k0) (ctxs s) -> FK (pre ++ k0) (ctxs s') -> QTags s -> KS s ->
+  handle (MRetInvoke r m0) s = (pre, s') ->
+  monr stepK iK (tr s) = Some m -> monr stepF None (tr s) = Some b -> RK m b (MRetInvoke r m0 :: k0) s ->
+  RKnext (pre ++ k0) s'.
+Proof.
+  intros F F' QT KS_ H MK MF R.
+  pose proof (handle_Q _ _ _ _ QT KS_ H I) as QS.
+  cbn [handle] in H. destruct (ret_invoke_K _ _ _ _ _ H) as [NE|[NS|SS]].
+  - right. exists m, b. apply (RK_neutral m b (MRetInvoke r m0) k0 s pre s'); auto. intros; discriminate.
+  - destruct NS as (rid & a & inner & evs & -> & -> & TR & PB & AC & DS).
+    pose proof R as [Kb Kf Ky Kp Kz Kcx Kql Kqr].
+    assert (ST : stepK m (ENotify a (msg_cause m0)) = Some m).
+    { cbn [stepK]. destruct m0 as [[v|c]|]; try reflexivity. simpl msg_cause.
+      pose proof (Kp _ (or_introl eq_refl)) as PK. simpl in PK. specialize (PK a eq_refl). apply cok_guard in PK.
+      unfold guard. destruct c; rewrite PK; reflexivity. }
+    assert (MK' : monr stepK iK (tr s') = Some m) by (rewrite TR; apply monK_block; auto; cbn [monr]; rewrite MK; exact ST).
+    assert (MF' : monr stepF None (tr s') = Some b) by (rewrite TR; apply monF_block; auto; cbn [monr]; rewrite MF; reflexivity).
+    right. exists m, b. split; [exact MK' | split; [exact MF'|]].
+    assert (TR2 : tr s' = (evs ++ [ENotify a (msg_cause m0)]) ++ tr s) by (rewrite TR, <- app_assoc; reflexivity).
+    destruct (RK_frame m m b _ k0 s s' _ TR2 (nmono_same _ _ AC) (fun a c H => H) eq_refl R) as (P1 & P2 & P3 & P4 & P5 & P6).
+    destruct QS as [Q1 Q2].
+    constructor.
+    + unfold openbody, lastdie. rewrite DS. exact Kb.
+    + exact Kf.
+    + intros a0 c0 EX. assert (NT : MRetInvoke (Ret rid (RKNotify a inner)) m0 <> MTerminate a0 c0) by discriminate. exact (P4 _ _ EX NT).
+    + exact P1.
+    + intros y a0 IN T. apply (P5 y a0 IN T).
+    + intros a0 p0 d0 IN. rewrite DS in IN. apply (P6 a0 p0 d0). exact IN.
+    + intros ci IN. apply P3. apply Q1. exact IN.
+    + exact P2.
+  - destruct SS as (rid & p & key & inner & mm & -> & -> & -> & (evs & TR & PB) & NM & DS).
+    pose proof R as [Kb Kf Ky Kp Kz Kcx Kql Kqr].
+    right. exists m, b. split; [rewrite TR; apply monK_block; auto|]. split; [rewrite TR; apply monF_block; auto|].
+    destruct (RK_frame m m b _ k0 s s' _ TR NM (fun a c H => H) eq_refl R) as (P1 & P2 & P3 & P4 & P5 & P6).
+    destruct QS as [Q1 Q2].
+    constructor.
+    + unfold openbody, lastdie. rewrite DS. exact Kb.
+    + exact Kf.
+    + intros a0 c0 EX. assert (NT : MRetInvoke (Ret rid (RKSlab p key inner)) (Some mm) <> MTerminate a0 c0) by discriminate.
+      destruct (P4 _ _ EX NT) as (y & AY & G). exists y. split; [exact AY|]. destruct G as [G|G]; [left; exact G | right; right; right; exact G].
+    + intros y [<-|[<-|IN]]; [|exact I | apply P1; exact IN].
+      destruct mm as [v|c]; [exact I|]. simpl. intros a0 NS. pose proof (Kp _ (or_introl eq_refl)) as PK. simpl in PK. apply (PK a0 NS).
+    + intros y a0 [<-|[<-|IN]] T; [destruct mm; discriminate T | discriminate T | apply (P5 y a0 IN T)].
+    + intros a0 p0 d0 IN. rewrite DS in IN. apply (P6 a0 p0 d0). exact IN.
+    + intros ci IN. apply P3. apply Q1. exact IN.
+    + intros ci [E|[E|IN]]; [discriminate E | discriminate E | apply P2; exact IN].
+Qed.
